@@ -139,6 +139,89 @@ func W(site int) {
 	}
 }
 
+// MapConflict: one map written by two different tasks of a concurrent run, with no lock of
+// the library held at either write. Independent renders share no mutable map (process-wide
+// caches are written under their lock), so this is interference whether or not the two
+// writes ever meet in time.
+type MapConflict struct {
+	SiteA int32 `json:"site_a"`
+	SiteB int32 `json:"site_b"`
+	TaskA int   `json:"task_a"`
+	TaskB int   `json:"task_b"`
+}
+
+type mwRec struct {
+	task int
+	site int32
+}
+
+var (
+	MapConflicts []MapConflict
+	mwOwner      map[unsafe.Pointer]mwRec
+	mwPins       []interface{} // keeps every recorded map alive, so that no address is reused during the run
+)
+
+// MW is called after every map write of the rewritten library (m[k] = v, m[k]++, delete).
+func MW[K comparable, V any](m map[K]V, site int32) {
+	if len(tasks) == 0 || m == nil {
+		return
+	}
+	if tasks[cur].lockDept > 0 {
+		return
+	}
+	p := *(*unsafe.Pointer)(unsafe.Pointer(&m))
+	r, ok := mwOwner[p]
+	if !ok {
+		if mwOwner == nil {
+			mwOwner = map[unsafe.Pointer]mwRec{}
+		}
+		mwOwner[p] = mwRec{cur, site}
+		mwPins = append(mwPins, m)
+		return
+	}
+	if r.task != cur {
+		for _, c := range MapConflicts {
+			if c.SiteA == r.site && c.SiteB == site {
+				return
+			}
+		}
+		if len(MapConflicts) < 32 {
+			MapConflicts = append(MapConflicts, MapConflict{r.site, site, r.task, cur})
+		}
+	}
+}
+
+// PW is called after writes through a field, a slice element or a dereference in the packages
+// whose objects renders may share (rewriter: trackedDir). Same rule as MW, per address.
+func PW[T any](ptr *T, site int32) {
+	if len(tasks) == 0 || ptr == nil || unsafe.Sizeof(*ptr) == 0 {
+		return
+	}
+	if tasks[cur].lockDept > 0 {
+		return
+	}
+	p := unsafe.Pointer(ptr)
+	r, ok := mwOwner[p]
+	if !ok {
+		if mwOwner == nil {
+			mwOwner = map[unsafe.Pointer]mwRec{}
+		}
+		mwOwner[p] = mwRec{cur, site}
+		mwPins = append(mwPins, ptr)
+		return
+	}
+	if r.task != cur {
+		for _, c := range MapConflicts {
+			if c.SiteA == r.site && c.SiteB == site {
+				return
+			}
+		}
+		if len(MapConflicts) < 32 {
+			MapConflicts = append(MapConflicts, MapConflict{r.site, site, r.task, cur})
+		}
+	}
+}
+
 // Steps returns the global step counter (function entries so far in this run).
 func Steps() uint64 { return steps }
 
@@ -424,6 +507,7 @@ func Reset(p OrderPlan, stepBudget uint64, nSites int) {
 		siteMode[s] = ModeCanon
 	}
 	registry = map[unsafe.Pointer]uint64{}
+	MapConflicts, mwOwner, mwPins = nil, nil, nil
 	nextID = 0
 	Unregistered = 0
 	SiteStats = map[int]*SiteStat{}
